@@ -16,6 +16,7 @@ import (
 	"verif/harness/checks/c12"
 	"verif/harness/checks/c13"
 	"verif/harness/checks/c14"
+	"verif/harness/checks/c15"
 	"verif/harness/checks/c16"
 	"verif/harness/checks/c17"
 	"verif/harness/checks/c19"
@@ -36,6 +37,7 @@ var checks = map[string]func(*vf.Check){
 	"C12": c12.Run,
 	"C13": c13.Run,
 	"C14": c14.Run,
+	"C15": c15.Run,
 	"C16": c16.Run,
 	"C17": c17.Run,
 	"C19": c19.Run,
